@@ -193,6 +193,7 @@ type c19Result struct {
 	probeOut  bool
 	probeIn   bool
 	startedOn [][]byte // chunks right after whose forwarding the cursor was hidden
+	driftMs   int      // how late the harness itself was with its worst scripted event
 }
 
 func c19TermItem(b []byte) (string, bool) {
@@ -304,6 +305,9 @@ func c19Run(sc *c19Scenario) (res c19Result) {
 	for _, e := range sc.evs {
 		if d := time.Until(start.Add(time.Duration(e.t) * time.Millisecond)); d > 0 {
 			time.Sleep(d)
+		}
+		if d := int(time.Since(start)/time.Millisecond) - e.t; d > res.driftMs {
+			res.driftMs = d
 		}
 		poll()
 		switch e.kind {
@@ -705,7 +709,14 @@ func c19RunAll(scs []*c19Scenario, par int) []c19Result {
 		go func(i int) {
 			defer wg.Done()
 			defer func() { <-sem }()
-			res[i] = c19Run(scs[i])
+			// a run in which the harness itself was late with an event (machine overloaded)
+			// says nothing about the order of events: repeat it
+			for try := 0; try < 3; try++ {
+				res[i] = c19Run(scs[i])
+				if res[i].driftMs <= 25 {
+					break
+				}
+			}
 		}(i)
 	}
 	wg.Wait()
@@ -837,6 +848,9 @@ func genZmodemGroup(c *ctx) {
 			c.count(t)
 		}
 		args := append([]string{"1"}, sc.modelArgs(r.readerr)...)
+		if r.driftMs > 25 {
+			c.count("harness-late>25ms")
+		}
 		if strings.Contains(r.readerr, "1") {
 			c.count("race:exit-seen-as-read-error")
 		}
